@@ -23,7 +23,11 @@ pub enum NamingK {
     CustomCur,
     /// `TimestampsCustomFormat { current_infix: None, format: "r%Y-%m-%d_%H-%M-%S" }`
     CustomDirect,
+    /// `TimestampsCustomFormat { current_infix: None, format: "d%Y-%m-%d" }`: a format coarser
+    /// than the rotation rhythm (not in `NG`; used by single checks)
+    CoarseDirect,
 }
+pub const FMT_COARSE: &str = "d%Y-%m-%d";
 pub const NG: [NamingK; 6] = [
     NamingK::Numbers,
     NamingK::NumbersDirect,
@@ -47,6 +51,10 @@ impl NamingK {
                 current_infix: None,
                 format: FMT_STD,
             },
+            Self::CoarseDirect => Naming::TimestampsCustomFormat {
+                current_infix: None,
+                format: FMT_COARSE,
+            },
         }
     }
     pub fn is_numbers(self) -> bool {
@@ -55,7 +63,7 @@ impl NamingK {
     pub fn direct(self) -> bool {
         matches!(
             self,
-            Self::NumbersDirect | Self::TimestampsDirect | Self::CustomDirect
+            Self::NumbersDirect | Self::TimestampsDirect | Self::CustomDirect | Self::CoarseDirect
         )
     }
     /// The infix of the file currently written to, for the non-direct schemes.
@@ -71,6 +79,7 @@ impl NamingK {
         match self {
             Self::Timestamps | Self::TimestampsDirect | Self::CustomDirect => Some(FMT_STD),
             Self::CustomCur => Some(FMT_PLAIN),
+            Self::CoarseDirect => Some(FMT_COARSE),
             _ => None,
         }
     }
@@ -82,6 +91,7 @@ impl NamingK {
             Self::TimestampsDirect => "TsD",
             Self::CustomCur => "CuC",
             Self::CustomDirect => "CuD",
+            Self::CoarseDirect => "CoD",
         }
     }
 }
